@@ -349,6 +349,39 @@ def tokens_spaces(text):
     return out
 
 
+def tokens_joints(text):
+    """Zero-width token boundaries of `text` where blank material may be inserted without changing the tree
+    (outside descriptions, commands, nonterminal names and escapes): before a postfix `...`, after `(`/`[`,
+    before `)`/`]`, before `;`.  -> list of indices (insert before text[i])."""
+    out = []
+    i, n = 0, len(text)
+    while i < n:
+        if text.startswith('{{{', i):
+            j = text.find('}}}', i)
+            i = n if j < 0 else j + 3
+        elif text[i] == '"':
+            j = i + 1
+            while j < n and text[j] != '"':
+                j += 2 if text[j] == '\\' else 1
+            i = j + 1
+        elif text[i] == '<':
+            j = text.find('>', i)
+            i = n if j < 0 else j + 1
+        elif text[i] == '\\':
+            i += 2
+        elif text.startswith('...', i):
+            if i > 0 and text[i - 1] != ' ':
+                out.append(i)
+            i += 3
+        else:
+            if text[i] in '([' and i + 1 < n and text[i + 1] != ' ':
+                out.append(i + 1)
+            elif text[i] in ')];' and i > 0 and text[i - 1] != ' ':
+                out.append(i)
+            i += 1
+    return out
+
+
 def relayout(stmts, rng, heavy=False):
     """Joins statements with random blank material at token boundaries: spaces, tabs, newlines,
     form feeds, # comments, blank lines; `::=` or `=`; last `;` optionally dropped."""
@@ -369,13 +402,17 @@ def relayout(stmts, rng, heavy=False):
     for si, st in enumerate(stmts):
         if rng.random() < 0.5:
             st = st.replace(' ::= ', ' = ', 1)
-        idx = tokens_spaces(st)
+        idx = [(i, 1) for i in tokens_spaces(st)] + [(i, 0) for i in tokens_joints(st)]
+        idx.sort()
         parts = []
         last = 0
-        for i in idx:
+        for i, width in idx:
             parts.append(st[last:i])
-            parts.append(blank() if (heavy or rng.random() < 0.3) else ' ')
-            last = i + 1
+            if width:
+                parts.append(blank() if (heavy or rng.random() < 0.3) else ' ')
+            elif rng.random() < (0.35 if heavy else 0.1):
+                parts.append(blank())
+            last = i + width
         parts.append(st[last:])
         out.append(''.join(parts))
     sep = []
